@@ -97,7 +97,7 @@ def run(P, C):
     ref = [f for f in P.fns("bspline") if f.file.endswith("core/bspline.cpp")]
     if len(loc) != 1 or len(ref) != 1:
         raise core.AnalysisBroken("bspline: fitter copy %d, reference %d" % (len(loc), len(ref)))
-    a, b = loc[0].alpha(loc[0].body)[0], ref[0].alpha(ref[0].body)[0]
+    a, b = loc[0].alpha(loc[0].body, effects=True)[0], ref[0].alpha(ref[0].body, effects=True)[0]
     C.ob("GE-3", "bspline@splineutil.c", "clone-of-reference", a == b, loc[0].where(),
          "the fitter's private bspline() is %s the library's reference bspline()" % ("identical to" if a == b else "NOT identical to"))
 
